@@ -133,6 +133,10 @@ func histFamily(c *Ctx, family string, mk func() []histOp) {
 				}
 			}
 			u.Class("history-pairs-unit")
+			// closing pass: oracles that look at retained data are asked once more
+			for i := range ops {
+				judge(i, base[i], "(closing pass after all pairs of this unit)")
+			}
 			// depth 3 over the perturbing subset
 			if c.Thorough {
 				var pert []int
